@@ -1,4 +1,6 @@
 import GrolProofs.LexNext
+import GrolProofs.LexString
+import GrolProofs.LexLines
 import Grol.LexSuite
 /-
 C16 — the lexer is lossless: tokens tile the input.
@@ -14,7 +16,7 @@ token/token.go by the `lex` correspondence suite, which also evaluates the execu
 token i+1 *is* the end of token i.
 -/
 namespace Grol.Lexer
-open Grol.Token Grol.Token.TType
+open Grol.Token Grol.Token.TType Grol.LexSuite
 
 /-- where the token returned by `next s` starts -/
 def start (s : State) : Nat := (skipWhitespace s).pos
@@ -364,12 +366,9 @@ def C16.InterningStatement : Prop :=
     ((resolveAll (initTable ++ ext) ts)[i]? = (resolveAll (initTable ++ ext) ts)[j]?
       ↔ (ts[i].type, ts[i].lit) = (ts[j].type, ts[j].lit))
 
-/-- proved part of `C16.InterningStatement`: the `Intern` calls themselves (every value token:
-numbers, strings, comments, illegal bytes, non-keyword identifiers), with anything interned in
-between.  Also proved: `resolve_den` (each single call returns the pointer denoted by the token's
-key in an extension of `Init`'s table).  Missing for the full statement: the induction over `resolveAll` for streams that mix
-`Intern` with the constant pointers (`ConstantTokenChar(2)`, keywords, `EOLT/EOFT`), whose keys
-are disjoint from interned keys by `Tok.WF` and the finite tables. -/
+/-- the `Intern` calls alone (every value token: numbers, strings, comments, illegal bytes,
+non-keyword identifiers), with anything interned in between; a corollary-sized special case kept
+for reference — the full statement is `C16.interning` below -/
 theorem C16.interning_partial (tb : Table) (k1 k2 : Key) (ext : Table) :
     (intern ((intern tb k1).2 ++ ext) k2).1 = (intern tb k1).1 ↔ k2 = k1 :=
   C16.intern_unique tb k1 k2 ext
@@ -443,6 +442,416 @@ theorem resolve_den (ext : Table) (t : Tok) (wf : t.WF) :
       exact ⟨e, he, by rw [← he, hk]; exact p, by rw [← he, hk]; exact m⟩
   · exact wf.elim
   · exact wf.elim
+
+/-! ### (6) the full interning statement -/
+
+theorem resolveAll_length : ∀ (ts : List Tok) (tb : Table), (resolveAll tb ts).length = ts.length := by
+  intro ts
+  induction ts with
+  | nil => intro tb; rfl
+  | cons t ts ih => intro tb; simp [resolveAll, ih]
+
+/-- every pointer of the stream denotes its token's key in one final table -/
+theorem resolveAll_den : ∀ (ts : List Tok) (ext : Table), (∀ t ∈ ts, t.WF) →
+    ∃ e, ∀ (i : Nat) (t : Tok) (p : Ptr), ts[i]? = some t → (resolveAll (initTable ++ ext) ts)[i]? = some p →
+      PtrDen (initTable ++ ext ++ e) t p := by
+  intro ts
+  induction ts with
+  | nil => intro ext _; exact ⟨[], fun i t p h => by simp at h⟩
+  | cons t ts ih =>
+    intro ext wf
+    obtain ⟨e1, he1, hd1⟩ := resolve_den ext t (wf t List.mem_cons_self)
+    obtain ⟨e2, h2⟩ := ih (ext ++ e1) (fun u hu => wf u (List.mem_cons_of_mem _ hu))
+    refine ⟨e1 ++ e2, ?_⟩
+    intro i u p hu hp
+    have assoc : initTable ++ ext ++ (e1 ++ e2) = initTable ++ ext ++ e1 ++ e2 := by simp
+    cases i with
+    | zero =>
+      simp only [List.getElem?_cons_zero, Option.some.injEq] at hu
+      subst hu
+      simp only [resolveAll, List.getElem?_cons_zero, Option.some.injEq] at hp
+      subst hp
+      rw [assoc]
+      exact hd1.ext e2
+    | succ j =>
+      simp only [List.getElem?_cons_succ] at hu
+      simp only [resolveAll, List.getElem?_cons_succ] at hp
+      rw [he1, List.append_assoc] at hp
+      have := h2 j u p hu hp
+      rw [assoc, List.append_assoc initTable ext e1]
+      exact this
+
+/-- 0 = end marker, 1 = single-character constant, 2 = token held by the interning map -/
+def kind (t : Tok) : Nat :=
+  match t.src with
+  | .eoleof => 0
+  | .char1 => 1
+  | _ => 2
+
+def isC1Type (ty : TType) : Bool := (cTokens.map (·.2)).contains ty
+
+/-- the same classification read off the type alone -/
+def tcls (ty : TType) : Nat := if ty = EOL ∨ ty = EOF then 0 else if isC1Type ty then 1 else 2
+
+theorem cTokens_cls : ∀ p ∈ cTokens, tcls p.2 = 1 := by decide
+theorem c2Tokens_cls : ∀ p ∈ c2Tokens, tcls p.2 = 2 := by decide
+theorem keywords_cls : ∀ p ∈ keywords, tcls p.2 = 2 := by decide
+
+theorem wf_cls (t : Tok) (wf : t.WF) : tcls t.type = kind t := by
+  unfold Tok.WF at wf
+  unfold kind
+  split at wf
+  · rename_i hs; simp only [hs]; rcases wf.1 with e | e <;> (rw [e]; decide)
+  · rename_i hs; simp only [hs]
+    obtain ⟨c, _, hc⟩ := wf
+    exact cTokens_cls _ (lookup_mem _ _ _ hc)
+  · rename_i hs; simp only [hs]
+    obtain ⟨a, b, _, hc⟩ := wf
+    exact c2Tokens_cls _ (lookup_mem _ _ _ hc)
+  · rename_i hs; simp only [hs]
+    rcases wf with e | e | e | e | e | e <;> (rw [e]; decide)
+  · rename_i hs; simp only [hs]
+    cases hl : keywords.lookup t.lit with
+    | none => rw [hl] at wf; simp only [Option.getD] at wf; rw [wf]; decide
+    | some ty =>
+      rw [hl] at wf; simp only [Option.getD] at wf; rw [wf]
+      exact keywords_cls _ (lookup_mem _ _ _ hl)
+  · exact wf.elim
+  · exact wf.elim
+
+/-- normal form of `PtrDen` by kind -/
+theorem den_norm {T : Table} {t : Tok} {p : Ptr} (wf : t.WF) (h : PtrDen T t p) :
+    (kind t = 0 ∧ t.lit = [] ∧ p = (if t.type = EOL then Ptr.eolt else Ptr.eoft))
+    ∨ (kind t = 1 ∧ ∃ c, t.lit = [c] ∧ cTokens.lookup c = some t.type ∧ p = Ptr.c1 c)
+    ∨ (kind t = 2 ∧ p = Ptr.slot (idx (key t) T) ∧ key t ∈ T) := by
+  unfold Tok.WF at wf
+  unfold PtrDen at h
+  unfold kind
+  split at wf
+  · rename_i hs; simp only [hs] at h ⊢; exact Or.inl ⟨trivial, wf.2, h⟩
+  · rename_i hs; simp only [hs] at h ⊢
+    obtain ⟨c, hc, hl⟩ := wf
+    obtain ⟨c', hc', hp⟩ := h
+    have : c' = c := by rw [hc] at hc'; injection hc' with h1; exact h1.symm
+    subst this
+    exact Or.inr (Or.inl ⟨trivial, c', hc, hl, hp⟩)
+  · rename_i hs; simp only [hs] at h ⊢; exact Or.inr (Or.inr ⟨trivial, h⟩)
+  · rename_i hs; simp only [hs] at h ⊢; exact Or.inr (Or.inr ⟨trivial, h⟩)
+  · rename_i hs; simp only [hs] at h ⊢; exact Or.inr (Or.inr ⟨trivial, h⟩)
+  · exact wf.elim
+  · exact wf.elim
+
+theorem idx_inj {T : Table} {k1 k2 : Key} (m1 : k1 ∈ T) (m2 : k2 ∈ T) (h : idx k1 T = idx k2 T) : k1 = k2 := by
+  have a := idx_getElem? k1 T m1
+  have b := idx_getElem? k2 T m2
+  rw [h, b] at a
+  injection a with a
+  exact a.symm
+
+/-- in one table, two well-formed tokens denote the same pointer iff type and literal agree -/
+theorem den_inj {T : Table} {t1 t2 : Tok} {p1 p2 : Ptr} (w1 : t1.WF) (w2 : t2.WF)
+    (d1 : PtrDen T t1 p1) (d2 : PtrDen T t2 p2) : p1 = p2 ↔ key t1 = key t2 := by
+  have c1 := wf_cls t1 w1
+  have c2 := wf_cls t2 w2
+  have kk : key t1 = key t2 → kind t1 = kind t2 := by
+    intro h
+    have : t1.type = t2.type := congrArg Prod.fst h
+    rw [← c1, ← c2, this]
+  rcases den_norm w1 d1 with ⟨k1, l1, e1⟩ | ⟨k1, a, la, ha, e1⟩ | ⟨k1, e1, m1⟩ <;>
+  rcases den_norm w2 d2 with ⟨k2, l2, e2⟩ | ⟨k2, b, lb, hb, e2⟩ | ⟨k2, e2, m2⟩
+  · -- two end markers
+    have ty1 : t1.type = EOL ∨ t1.type = EOF := by
+      unfold tcls at c1; rw [k1] at c1
+      by_cases h : t1.type = EOL ∨ t1.type = EOF
+      · exact h
+      · rw [if_neg h] at c1; split at c1 <;> cases c1
+    have ty2 : t2.type = EOL ∨ t2.type = EOF := by
+      unfold tcls at c2; rw [k2] at c2
+      by_cases h : t2.type = EOL ∨ t2.type = EOF
+      · exact h
+      · rw [if_neg h] at c2; split at c2 <;> cases c2
+    subst e1; subst e2
+    unfold key
+    rw [l1, l2]
+    rcases ty1 with h1 | h1 <;> rcases ty2 with h2 | h2 <;> simp [h1, h2]
+  · subst e1; subst e2
+    constructor
+    · intro h; split at h <;> cases h
+    · intro h; have := kk h; omega
+  · subst e1; subst e2
+    constructor
+    · intro h; split at h <;> cases h
+    · intro h; have := kk h; omega
+  · subst e1; subst e2
+    constructor
+    · intro h; split at h <;> cases h
+    · intro h; have := kk h; omega
+  · -- two single-character constants
+    subst e1; subst e2
+    unfold key
+    constructor
+    · intro h
+      injection h with h
+      subst h
+      rw [ha] at hb; injection hb with hb
+      rw [la, lb, hb]
+    · intro h
+      have : t1.lit = t2.lit := congrArg Prod.snd h
+      rw [la, lb] at this
+      injection this with this
+      rw [this]
+  · subst e1; subst e2
+    constructor
+    · intro h; cases h
+    · intro h; have := kk h; omega
+  · subst e1; subst e2
+    constructor
+    · intro h; split at h <;> cases h
+    · intro h; have := kk h; omega
+  · subst e1; subst e2
+    constructor
+    · intro h; cases h
+    · intro h; have := kk h; omega
+  · -- two slots of the interning map
+    subst e1; subst e2
+    constructor
+    · intro h; injection h with h; exact idx_inj m1 m2 h
+    · intro h; rw [h]
+
+/-- (6) interning, full statement: over any stream of well-formed tokens (every token the lexer
+returns is one: `C16.next_wf`), resolved against any table that extends the one built by `Init`,
+two calls return the same pointer iff type and literal are equal -/
+theorem C16.interning : C16.InterningStatement := by
+  intro ts wf ext i j hi hj
+  obtain ⟨e, hd⟩ := resolveAll_den ts ext wf
+  have li : i < (resolveAll (initTable ++ ext) ts).length := by rw [resolveAll_length]; exact hi
+  have lj : j < (resolveAll (initTable ++ ext) ts).length := by rw [resolveAll_length]; exact hj
+  have di := hd i ts[i] _ (List.getElem?_eq_getElem hi) (List.getElem?_eq_getElem li)
+  have dj := hd j ts[j] _ (List.getElem?_eq_getElem hj) (List.getElem?_eq_getElem lj)
+  have := den_inj (wf _ (List.getElem_mem hi)) (wf _ (List.getElem_mem hj)) di dj
+  rw [List.getElem?_eq_getElem li, List.getElem?_eq_getElem lj]
+  constructor
+  · intro h; injection h with h; exact this.mp h
+  · intro h; rw [this.mpr h]
+
+/-- the pointers of the tokens returned by `k` successive calls of the lexer, from any state -/
+theorem C16.interning_lexer (s : State) (k : Nat) (ext : Table) (i j : Nat) (hi : i < k) (hj : j < k) :
+    let ts := (List.range k).map fun n => (next (iter n s)).1
+    ((resolveAll (initTable ++ ext) ts)[i]? = (resolveAll (initTable ++ ext) ts)[j]?
+      ↔ ((next (iter i s)).1.type, (next (iter i s)).1.lit) = ((next (iter j s)).1.type, (next (iter j s)).1.lit)) := by
+  intro ts
+  have wf : ∀ t ∈ ts, t.WF := by
+    intro t ht
+    obtain ⟨n, _, rfl⟩ := List.mem_map.mp ht
+    exact C16.next_wf _
+  have hi' : i < ts.length := by simp [ts]; exact hi
+  have hj' : j < ts.length := by simp [ts]; exact hj
+  have := C16.interning ts wf ext i j hi' hj'
+  simpa [ts] using this
+
+/-! ### (3b') string literal = unescape(content) -/
+
+/-- `NextToken` on a quote: the `case '"', '`'` branch -/
+theorem nextCore_quote (s1 : State) (q : UInt8) (hq : q = 34 ∨ q = 96) (h : peekAt s1.input s1.pos = q) :
+    nextCore s1 =
+      (if (!(readString { s1 with pos := s1.pos + 1 } q).2.1) = true then
+        ((readString { s1 with pos := s1.pos + 1 } q).2.2.eolEof,
+          { (readString { s1 with pos := s1.pos + 1 } q).2.2 with
+            pos := (readString { s1 with pos := s1.pos + 1 } q).2.2.pos - 1 })
+      else (internTok STRING (readString { s1 with pos := s1.pos + 1 } q).1,
+          (readString { s1 with pos := s1.pos + 1 } q).2.2)) := by
+  unfold nextCore nextSwitch
+  simp only [State.readChar, State.peekChar, h]
+  rcases hq with rfl | rfl <;> rfl
+
+/-- (3b') string literal = unescape(content), by proof: for a STRING token the statement's own
+decoder, run exactly as `LexSuite.checkTok` runs it (same quote, same fuel, same bytes), returns
+the token's literal and the token's length after the opening quote -/
+theorem C16.string_literal (s : State) (h1 : (next s).1.src = .intern) (h2 : (next s).1.type = STRING) :
+    specString (peekAt s.input (start s) == 34) (peekAt s.input (start s)) (s.input.size + 1)
+        ((s.input.extract (start s + 1) s.input.size).toList)
+      = some ((next s).1.lit, (next s).2.pos - start s - 1) := by
+  have sp := C16.string_span s h1 h2
+  have sk := skipWhitespace_spec s
+  have hq : peekAt (skipWhitespace s).input (skipWhitespace s).pos = peekAt s.input (start s) := by
+    rw [sk.input]; rfl
+  obtain ⟨S, hS⟩ : ∃ S : State, S = { skipWhitespace s with pos := (skipWhitespace s).pos + 1 } := ⟨_, rfl⟩
+  have hSi : S.input = s.input := by rw [hS]; exact sk.input
+  have hSp : S.pos = start s + 1 := by rw [hS]; rfl
+  have e := nextCore_quote (skipWhitespace s) _ sp.2.2.1 hq
+  rw [← hS] at e
+  have ag := readString_eq_spec S _ sp.2.2.1 (by omega)
+  rw [hSi, hSp] at ag
+  have e' : next s = nextCore (skipWhitespace s) := rfl
+  rw [e'] at h1 h2 ⊢
+  rw [e] at h1 h2 ⊢
+  show specString _ _ _ (restL s.input (start s + 1)) = _
+  generalize specString (peekAt s.input (start s) == 34) (peekAt s.input (start s)) (s.input.size + 1)
+    (restL s.input (start s + 1)) = o at ag ⊢
+  cases o with
+  | none =>
+    unfold Agree at ag
+    simp only [] at ag
+    rw [ag] at h1
+    simp [State.eolEof, eolEof] at h1
+  | some vm =>
+    obtain ⟨v, m⟩ := vm
+    unfold Agree at ag
+    simp only [] at ag
+    rw [ag]
+    simp only [Bool.not_true, Bool.false_eq_true, ↓reduceIte, internTok]
+    congr 2
+    rw [hSp]; omega
+
+/-- … and where the lexer returns the end marker on a quote, that decoder says "not terminated"
+(the `checkMarker` clause of the executable statement) -/
+theorem C16.unterminated_string (s : State) (hm : isMarker (next s).1)
+    (hq : peekAt s.input (start s) = 34 ∨ peekAt s.input (start s) = 96) :
+    specString (peekAt s.input (start s) == 34) (peekAt s.input (start s)) (s.input.size + 1)
+        ((s.input.extract (start s + 1) s.input.size).toList) = none := by
+  have sk := skipWhitespace_spec s
+  have hq' : peekAt (skipWhitespace s).input (skipWhitespace s).pos = peekAt s.input (start s) := by
+    rw [sk.input]; rfl
+  obtain ⟨S, hS⟩ : ∃ S : State, S = { skipWhitespace s with pos := (skipWhitespace s).pos + 1 } := ⟨_, rfl⟩
+  have hSi : S.input = s.input := by rw [hS]; exact sk.input
+  have hSp : S.pos = start s + 1 := by rw [hS]; rfl
+  have e := nextCore_quote (skipWhitespace s) _ hq hq'
+  rw [← hS] at e
+  have ag := readString_eq_spec S _ hq (by omega)
+  rw [hSi, hSp] at ag
+  have e' : next s = nextCore (skipWhitespace s) := rfl
+  rw [e', e] at hm
+  show specString _ _ _ (restL s.input (start s + 1)) = _
+  generalize specString (peekAt s.input (start s) == 34) (peekAt s.input (start s)) (s.input.size + 1)
+    (restL s.input (start s + 1)) = o at ag ⊢
+  cases o with
+  | none => rfl
+  | some vm =>
+    obtain ⟨v, m⟩ := vm
+    unfold Agree at ag
+    simp only [] at ag
+    rw [ag] at hm
+    simp [isMarker, internTok] at hm
+
+/-! ### (7) line bookkeeping: `lastNewLine`, `lineNumber`, `hadNewline`, `hadWhitespace` -/
+
+/-- `next` keeps the line invariant: `lastNewLine ≤ pos`, `lastNewLine ≤ len(input)`, `lastNewLine`
+is 0 or just after a newline byte, `1 ≤ lineNumber ≤ 1 + #newlines before pos` -/
+theorem C16.lineInv_next (s : State) (h : LineInv s) : LineInv (next s).2 := by
+  have h1 := (skipWhitespace_flags s).1 h
+  have sp := next_spec s
+  have t := C16.tiling s
+  rw [sp.1]
+  exact h1.advance t.2.2.2.1
+
+theorem C16.lineInv_iter (s : State) (h : LineInv s) (k : Nat) : LineInv (iter k s) := by
+  induction k with
+  | zero => exact h
+  | succ k ih => rw [iter_succ']; exact C16.lineInv_next _ ih
+
+/-- after every call, from the initial state of either mode: `LastNewLine() ≤ min Pos() len(input)`
+(the first hypothesis of the parser's `StreamWF`) -/
+theorem C16.lastNewLine_le (input : Array UInt8) (lineMode : Bool) (k : Nat) :
+    (next (iter k (State.new input lineMode))).2.lastNewLine
+      ≤ min (next (iter k (State.new input lineMode))).2.pos input.size := by
+  have h := C16.lineInv_next _ (C16.lineInv_iter _ (LineInv.new input lineMode) k)
+  have e : (next (iter k (State.new input lineMode))).2.input = input := by
+    have : ∀ k, (iter k (State.new input lineMode)).input = input := by
+      intro k
+      induction k with
+      | zero => rfl
+      | succ k ih => rw [iter_succ', (C16.tiling _).2.2.2.2.1]; exact ih
+    rw [(C16.tiling _).2.2.2.2.1]; exact this k
+  have := h.le_pos
+  have := h.le_size
+  rw [e] at this
+  omega
+
+/-- the flags after the call say exactly what lies between the previous token and this one -/
+theorem C16.flags_exact (s : State) :
+    ((next s).2.hadWhitespace = true ↔ s.pos < start s)
+    ∧ ((next s).2.hadNewline = true ↔ ∃ i, s.pos ≤ i ∧ i < start s ∧ peekAt s.input i = 10) := by
+  have f := C16.flags s
+  have k := skipWhitespace_flags s
+  rw [f.1, f.2]
+  exact ⟨k.2.1, k.2.2⟩
+
+/-- on a NUL byte / at the end of the input the call returns the end marker -/
+theorem next_of_zero (s : State) (h : peekAt s.input s.pos = 0) : isMarker (next s).1 := by
+  have sk := skipWhitespace_spec s
+  have hpos : (skipWhitespace s).pos = s.pos := by
+    apply Classical.byContradiction
+    intro hne
+    have hlt : s.pos < (skipWhitespace s).pos := by have := sk.ge; omega
+    have := sk.gap s.pos (Nat.le_refl _) hlt
+    rw [h] at this
+    revert this; decide
+  have h0 : peekAt (skipWhitespace s).input (skipWhitespace s).pos = 0 := by
+    rw [sk.input, hpos]; exact h
+  have e : next s = (eolEof (skipWhitespace s).lineMode,
+      { (skipWhitespace s) with pos := (skipWhitespace s).pos + 1 - 1 }) := by
+    show nextSwitch _ _ _ = _
+    unfold nextSwitch
+    simp only [State.readChar, State.peekChar, h0]
+    rfl
+  rw [e]; rfl
+
+theorem src_of_linecomment (t : Tok) (wf : t.WF) (h : t.type = LINECOMMENT) : t.src = .intern := by
+  unfold Tok.WF at wf
+  split at wf
+  · rcases wf.1 with e | e <;> (rw [e] at h; cases h)
+  · obtain ⟨c, _, hc⟩ := wf
+    have : ∀ p ∈ cTokens, p.2 ≠ LINECOMMENT := by decide
+    exact absurd h (this _ (lookup_mem _ _ _ hc))
+  · obtain ⟨a, b, _, hc⟩ := wf
+    have : ∀ p ∈ c2Tokens, p.2 ≠ LINECOMMENT := by decide
+    exact absurd h (this _ (lookup_mem _ _ _ hc))
+  · assumption
+  · cases hl : keywords.lookup t.lit with
+    | none => rw [hl] at wf; simp only [Option.getD] at wf; rw [wf] at h; cases h
+    | some ty =>
+      rw [hl] at wf; simp only [Option.getD] at wf
+      have : ∀ p ∈ keywords, p.2 ≠ LINECOMMENT := by decide
+      exact absurd (wf.symm.trans h) (this _ (lookup_mem _ _ _ hl))
+  · exact wf.elim
+  · exact wf.elim
+
+/-- a line comment is followed by a token with `HadNewline()`, or by the end marker (the second
+hypothesis of the parser's `StreamWF`) -/
+theorem C16.after_linecomment (s : State) (h : (next s).1.type = LINECOMMENT) :
+    (next (next s).2).2.hadNewline = true ∨ isMarker (next (next s).2).1 := by
+  have hsrc := src_of_linecomment _ (C16.next_wf s) h
+  have lc := C16.linecomment_span s hsrc h
+  have t := C16.tiling s
+  have hstop := lc.2.2.2.2
+  have : peekAt s.input (next s).2.pos = 10 ∨ peekAt s.input (next s).2.pos = 0 := by
+    unfold notEOL at hstop
+    simp only [Bool.and_eq_false_imp, bne_iff_ne, ne_eq, bne_eq_false_iff_eq] at hstop
+    by_cases h10 : peekAt s.input (next s).2.pos = 10
+    · exact Or.inl h10
+    · exact Or.inr (hstop h10)
+  rcases this with h10 | h0
+  · left
+    rw [(C16.flags_exact (next s).2).2]
+    have sk := skipWhitespace_spec (next s).2
+    refine ⟨(next s).2.pos, Nat.le_refl _, ?_, by rw [t.2.2.2.2.1]; exact h10⟩
+    unfold start
+    have hstp := sk.stop
+    rw [t.2.2.2.2.1] at hstp
+    apply Classical.byContradiction
+    intro hn
+    have : (skipWhitespace (next s).2).pos = (next s).2.pos := by have := sk.ge; omega
+    rw [this, h10] at hstp
+    revert hstp; decide
+  · right
+    exact next_of_zero _ (by rw [t.2.2.2.2.1]; exact h0)
+
+/-- `lineNumber` is *not* "1 + number of newlines before pos": newlines inside strings and block
+comments are not counted (only `skipWhitespace` counts).  Input: a backquoted string holding a
+newline, then `x`: after both tokens `lineNumber` is still 1 although a newline lies before `pos`. -/
+example : (iter 2 (State.new #[96, 10, 96, 32, 120] false)).lineNumber = 1
+    ∧ countNL #[96, 10, 96, 32, 120] (iter 2 (State.new #[96, 10, 96, 32, 120] false)).pos = 1 := by
+  decide +kernel
 
 /-! ### non-vacuity: the three repaired inputs, evaluated by the kernel -/
 
